@@ -5,6 +5,16 @@ V = os.path.dirname(os.path.dirname(os.path.abspath(__file__)))
 ALL = [f"C{i:02d}" for i in range(1, 21)]
 
 CLAIMED = {
+    "C17": dict(
+        text="Proved about the formatter arithmetic (error/syntax.rs, error/runtime.rs): an error whose position is well placed (existing group and line, start <= end <= "
+             "len+1) formats without panicking, shows exactly the named line, and every caret lies within [0, len]; an error naming a missing group/line or a reversed span "
+             "makes the formatter panic - so well-placedness is exactly the obligation on the rest of the code. PARTIAL: that every error the lexer/parser/interpreter produce "
+             "is well placed is not proved (front ends not ported); it is decided by the c17-spec search: one fault (25 syntax mutations, 32 runtime-fault rules) planted at "
+             "a random (group, line) of valid rule lists, one bad alias line, one bad word; the formatter runs under catch_unwind; reported line = planted line; carets in range.",
+        note="Trusted: Lean kernel, standard axioms; the formatter model is hand-written and small (span arithmetic + two indexings) and has no own correspondence suite beyond "
+             "the search; colours and wording are not judged. D28 (second caret misplaced) was repaired by a fix: commit; D29 (zero-width `%` position) is a known finding.",
+        technique="Lean 4 theorems on formatter arithmetic + planted-fault search on impl",
+        design="§4 C17"),
     "C18": dict(
         text="Machine-checked proof (Lean 4) of the get/set/frame/normalisation laws for every Option<u16> place (all 2^16+1, "
              "well formed or not), every sub-node, every in-range value and every byte, over a model of place.rs/seg.rs whose "
@@ -98,6 +108,18 @@ CLAIMED = {
         note='Trusted: Lean kernel, standard axioms (+ bv_decide certificates where the bit layer is used); the hand port of subrule.rs/rule.rs/syll.rs (Model/Interp), tied to the code on every run by the interp-ops correspondence (identical outcome class and word on ~27k generated cases quick / 400k thorough, release profile); generators and labels of the search.',
         technique='Lean 4 table theorem + fold theorem + shorthand/expansion search',
         design="§4 C12"),
+    "C13": dict(
+        text="Proved over tables re-read from lexer.rs / alias/lexer.rs / error/mod.rs on every run: the two lexers' feature-name tables are identical arm by arm; no spelling "
+             "denotes two features; every spelling the error message may suggest is accepted; the manual's shorthands denote the features the manual says. Proved over the "
+             "word-parser model: the typed marks ' , : ; are rewritten to the canonical marks character by character before anything else reads the text, so a word and its "
+             "respelling parse to the same word (for every text). PARTIAL: the rule-level equivalences (arrows, | vs //, * vs ∅, ellipsis and angle spellings, spaces in "
+             "matrices, trailing comments, alpha/variable renaming, input aliases, doubled segments) have no theorem yet - the lexer and parser are not ported - and are decided "
+             "by the c13-spec search: ~150k rule respellings and ~70k word respellings per quick run compared with the original on the implementation.",
+        note="Trusted: Lean kernel, standard axioms; translator (regex over the `match` arms; cross-checked by the search, which spells features through the same table); "
+             "harness respelling generators. The defect D13 (`//` and trailing comments rejected after `*`, `&`, the output) was repaired by a fix: commit; two residual "
+             "spellings are known findings (D13b `_ ;; comment`, D13c `- α`).",
+        technique="Lean 4 table theorems + respelling theorem on the word parser model + respelling search on impl",
+        design="§4 C13"),
     "C14": dict(
         text="Proved over the port of syll.rs, for any run length, position and syllable: a matrix naming no length/stress/tone leaves the syllable's stress, tone and segment count unchanged and reports no length change, and touches no segment outside the run; apply_syll_mods (stress/tone setting) never touches a segment; joining and splitting syllables keep every segment in order. PARTIAL: the whole-rule statements with arbitrary environments are decided by c14-spec and the correspondence.",
         note='Trusted: Lean kernel, standard axioms (+ bv_decide certificates where the bit layer is used); the hand port of subrule.rs/rule.rs/syll.rs (Model/Interp), tied to the code on every run by the interp-ops correspondence (identical outcome class and word on ~27k generated cases quick / 400k thorough, release profile); generators and labels of the search.',
